@@ -64,6 +64,87 @@ class Lin:
         return "Lin(%d*n%+d)" % (self.a, self.b)
 
 
+class Wx:
+    """A term in the unknown non-negative integer n (the same unknown as Lin's) with the concrete witness value of n.
+    Terms: ('lin', a, b) | ('bin', op, term, k) | ('rbin', op, k, term) | ('cast', bits, term).  Arithmetic keeps the term;
+    a comparison of a *monotone* term with a constant is turned into a comparison of n with the exact threshold (found by
+    bisection on the term), decided by the witness and logged like Lin's comparisons -- so a function that compares only
+    monotone terms of n with constants is still reconstructed exactly, piece by piece, and within a piece every value it
+    produces is one term."""
+    def __init__(self, term, w, log):
+        self.term, self.w, self.log = term, w, log
+
+    def val(self):
+        return wx_eval(self.term, self.w)
+
+    def __repr__(self):
+        return "Wx(%r)" % (self.term,)
+
+
+def wx_term(v):
+    return ("lin", v.a, v.b) if isinstance(v, Lin) else v.term
+
+
+def wx_eval(t, n):
+    if t[0] == "lin":
+        return t[1] * n + t[2]
+    if t[0] == "cast":
+        return wx_eval(t[2], n) % (1 << t[1])
+    if t[0] == "bin":
+        a, b = wx_eval(t[2], n), t[3]
+    else:
+        a, b = t[2], wx_eval(t[3], n)
+    op = t[1]
+    if op in ("Div", "Rem") and b == 0:
+        raise Undecided("division by zero in a term of the argument")
+    return {"Add": lambda: a + b, "Sub": lambda: a - b, "Mul": lambda: a * b, "Div": lambda: a // b, "Rem": lambda: a % b,
+            "BitAnd": lambda: a & b, "BitOr": lambda: a | b, "BitXor": lambda: a ^ b, "Shl": lambda: a << b, "Shr": lambda: a >> b}[op]()
+
+
+def wx_monotone(t):
+    """True when the term is non-decreasing in n (for n >= 0, no wrap-around)."""
+    if t[0] == "lin":
+        return t[1] >= 0
+    if t[0] == "bin" and isinstance(t[3], int):
+        if t[1] in ("Add", "Sub"):
+            return wx_monotone(t[2])
+        if t[1] in ("Mul", "Div") and t[3] > 0:
+            return wx_monotone(t[2])
+        if t[1] in ("Shl", "Shr") and t[3] >= 0:
+            return wx_monotone(t[2])
+    return False
+
+
+def wx_threshold(t, c, limit=1 << 64):
+    """smallest n >= 0 with term(n) >= c, or None when no n <= limit reaches c (term non-decreasing)."""
+    if wx_eval(t, 0) >= c:
+        return 0
+    if wx_eval(t, limit) < c:
+        return None
+    lo, hi = 0, limit            # term(lo) < c <= term(hi)
+    while hi - lo > 1:
+        mid = (lo + hi) // 2
+        if wx_eval(t, mid) >= c:
+            hi = mid
+        else:
+            lo = mid
+    return hi
+
+
+def wx_compare(op, v, c):
+    """Decide `v <op> c` for a Lin / Wx v and a constant c by the witness; log the thresholds on n."""
+    t = wx_term(v)
+    if not wx_monotone(t):
+        raise Undecided("comparison of a non-monotone term of the argument (%r) with a constant" % (t,))
+    need = {"Lt": (c,), "Ge": (c,), "Le": (c + 1,), "Gt": (c + 1,), "Eq": (c, c + 1), "Ne": (c, c + 1)}[op]
+    for k in need:
+        th = wx_threshold(t, k)
+        if th is not None:
+            v.log.append((op, th))
+    x = wx_eval(t, v.w)
+    return {"Lt": x < c, "Le": x <= c, "Gt": x > c, "Ge": x >= c, "Eq": x == c, "Ne": x != c}[op]
+
+
 class Adt:
     def __init__(self, adt, variant, fields=None):
         self.adt = adt
@@ -238,14 +319,13 @@ class PE:
             return True
         if k in ("Deref", "DerefPattern"):
             return self.match(p["sub"], v, env, place)
-        if k == "Const" and isinstance(v, Lin):
+        if k == "Const" and isinstance(v, (Lin, Wx)):
             pv = p.get("val")
             if isinstance(pv, dict) and "char" in pv:
                 pv = pv["char"]
             if isinstance(pv, bool):
                 pv = int(pv)
-            v.log.append(("Eq", pv - v.b))
-            return v.w + v.b == pv
+            return wx_compare("Eq", v, pv)
         if k == "Const":
             pv = p.get("val")
             if isinstance(pv, dict) and "char" in pv:
@@ -259,21 +339,13 @@ class PE:
             if isinstance(v, bool) or isinstance(pv, bool):
                 return bool(v) == bool(pv)
             return v == pv
-        if k == "Range" and isinstance(v, Lin):
-            if v.a != 1:
-                raise Undecided("range pattern on scaled length")
+        if k == "Range" and isinstance(v, (Lin, Wx)):
             lo, hi = p["lo"], p["hi"]
             res = True
             if lo != "-inf":
-                v.log.append(("Ge", lo - v.b))
-                res = res and (v.w + v.b >= lo)
+                res = wx_compare("Ge", v, lo) and res
             if hi != "+inf":
-                if p["end"] == "Included":
-                    v.log.append(("Le", hi - v.b))
-                    res = res and (v.w + v.b <= hi)
-                else:
-                    v.log.append(("Lt", hi - v.b))
-                    res = res and (v.w + v.b < hi)
+                res = wx_compare("Le" if p["end"] == "Included" else "Lt", v, hi) and res
             return res
         if k == "Range":
             if isinstance(v, Sym):
@@ -486,11 +558,12 @@ class PE:
             v = int(v)
         if isinstance(v, int):
             return wrap(v, e["ty"])
-        if isinstance(v, Lin):
+        if isinstance(v, (Lin, Wx)):
             fb, tb = INT_BITS.get(e.get("from_ty") or "", 64), INT_BITS.get(e.get("ty") or "", 64)
             if tb < fb:
-                # truncation: the function no longer touches its argument only through comparisons with constants
-                raise Undecided("the argument is narrowed from %s to %s before it is compared (values >= 2^%d wrap)" % (e.get("from_ty"), e.get("ty"), tb))
+                # truncation: kept as a term; it is no longer monotone, so comparing it afterwards is Undecided
+                # (the function no longer touches its argument only through monotone terms)
+                return Wx(("cast", tb, wx_term(v)), v.w, v.log)
             return v
         if isinstance(v, Adt):
             a = self.F.adts.get(v.adt)
@@ -581,7 +654,7 @@ class PE:
         a = self.ev(e["l"], env)
         b = self.ev(e["r"], env)
         op = e["op"]
-        if isinstance(a, Lin) or isinstance(b, Lin):
+        if isinstance(a, (Lin, Wx)) or isinstance(b, (Lin, Wx)):
             return self.lin_binary(op, a, b, e)
         if isinstance(a, bool):
             a = int(a) if op not in ("Eq", "Ne") else a
@@ -626,45 +699,52 @@ class PE:
         return Sym(("bin", op, vkey(a), vkey(b)), e.get("ty"))
 
     def lin_binary(self, op, a, b, e):
-        lin = a if isinstance(a, Lin) else b
-        log = lin.log
-        if isinstance(a, Lin) and isinstance(b, Lin):
-            if op == "Add":
-                return Lin(a.a + b.a, a.b + b.b, a.w, log)
-            if op == "Sub":
-                return Lin(a.a - b.a, a.b - b.b, a.w, log)
-            if op in ("Lt", "Le", "Gt", "Ge", "Eq", "Ne") and a.a == b.a:
-                x, y = a.b, b.b
-                return {"Lt": x < y, "Le": x <= y, "Gt": x > y, "Ge": x >= y, "Eq": x == y, "Ne": x != y}[op]
-            raise Undecided("relation between two symbolic lengths")
-        if isinstance(a, Lin):
+        CMP = ("Lt", "Le", "Gt", "Ge", "Eq", "Ne")
+        la, lb = isinstance(a, (Lin, Wx)), isinstance(b, (Lin, Wx))
+        if la and lb:
+            if isinstance(a, Lin) and isinstance(b, Lin):
+                if op == "Add":
+                    return Lin(a.a + b.a, a.b + b.b, a.w, a.log)
+                if op == "Sub":
+                    return Lin(a.a - b.a, a.b - b.b, a.w, a.log)
+                if op in CMP and a.a == b.a:
+                    x, y = a.b, b.b
+                    return {"Lt": x < y, "Le": x <= y, "Gt": x > y, "Ge": x >= y, "Eq": x == y, "Ne": x != y}[op]
+            raise Undecided("relation between two terms of the symbolic argument")
+        if la:
             k = b
             if isinstance(k, bool):
                 k = int(k)
             if not isinstance(k, int):
                 raise Undecided("symbolic length combined with %r" % (k,))
-            if op == "Add":
-                return Lin(a.a, a.b + k, a.w, log)
-            if op == "Sub":
-                return Lin(a.a, a.b - k, a.w, log)
-            if op == "Mul":
-                return Lin(a.a * k, a.b * k, a.w, log)
-            if op in ("Lt", "Le", "Gt", "Ge", "Eq", "Ne"):
-                if a.a != 1:
-                    raise Undecided("comparison of scaled symbolic length")
-                # n + a.b <op> k   <=>   n <op> k - a.b
-                c = k - a.b
-                log.append((op, c))
-                x = a.w
-                return {"Lt": x < c, "Le": x <= c, "Gt": x > c, "Ge": x >= c, "Eq": x == c, "Ne": x != c}[op]
+            if isinstance(a, Lin):
+                if op == "Add":
+                    return Lin(a.a, a.b + k, a.w, a.log)
+                if op == "Sub":
+                    return Lin(a.a, a.b - k, a.w, a.log)
+                if op == "Mul":
+                    return Lin(a.a * k, a.b * k, a.w, a.log)
+                if op == "Shl":
+                    return Lin(a.a << k, a.b << k, a.w, a.log)
+            if op in CMP:
+                return wx_compare(op, a, k)
+            if op in ("Add", "Sub", "Mul", "Div", "Rem", "BitAnd", "BitOr", "BitXor", "Shl", "Shr"):
+                if op in ("Div", "Rem") and k == 0:
+                    raise Undecided("division of the symbolic argument by zero")
+                return Wx(("bin", op, wx_term(a), k), a.w, a.log)
             raise Undecided("operation %s on a symbolic length" % op)
-        # constant <op> Lin
-        flip = {"Lt": "Gt", "Le": "Ge", "Gt": "Lt", "Ge": "Le", "Eq": "Eq", "Ne": "Ne", "Add": "Add", "Mul": "Mul"}
+        # constant <op> Lin/Wx
+        flip = {"Lt": "Gt", "Le": "Ge", "Gt": "Lt", "Ge": "Le", "Eq": "Eq", "Ne": "Ne", "Add": "Add", "Mul": "Mul",
+                "BitAnd": "BitAnd", "BitOr": "BitOr", "BitXor": "BitXor"}
         if op in flip:
             return self.lin_binary(flip[op], b, a, e)
-        if op == "Sub":
-            k = a if not isinstance(a, bool) else int(a)
-            return Lin(-b.a, k - b.b, b.w, log)
+        k = a if not isinstance(a, bool) else int(a)
+        if not isinstance(k, int):
+            raise Undecided("%r combined with a symbolic length" % (k,))
+        if op == "Sub" and isinstance(b, Lin):
+            return Lin(-b.a, k - b.b, b.w, b.log)
+        if op in ("Sub", "Div", "Rem", "Shl", "Shr"):
+            return Wx(("rbin", op, k, wx_term(b)), b.w, b.log)
         raise Undecided("operation %s on a symbolic length" % op)
 
     def x_Block(self, e, env):
@@ -992,7 +1072,7 @@ class PE:
             return wrap(int(a0), e.get("ty") or "")
         if name == "from" and len(args) == 1 and isinstance(a0, Sym) and (e.get("ty") or "") in INT_BITS:
             return a0      # integer widening of an opaque value
-        if name == "from" and len(args) == 1 and isinstance(a0, Lin):
+        if name == "from" and len(args) == 1 and isinstance(a0, (Lin, Wx)):
             return a0
         if name in ("into", "from") and len(args) == 1 and isinstance(a0, (int, bool)) and (e.get("ty") or "") in INT_BITS:
             return wrap(int(a0), e.get("ty") or "")
@@ -1037,9 +1117,8 @@ class PE:
         if "NonZero" in d and name == "new" and len(args) == 1:
             if isinstance(a0, int):
                 return some(Adt("nonzero", "NZ", {"0": a0})) if a0 != 0 else NONE
-            if isinstance(a0, Lin):
-                a0.log.append(("Eq", 0 - a0.b))
-                return some(Adt("nonzero", "NZ", {"0": a0})) if a0.val() != 0 else NONE
+            if isinstance(a0, (Lin, Wx)):
+                return NONE if wx_compare("Eq", a0, 0) else some(Adt("nonzero", "NZ", {"0": a0}))
         if "NonZero" in d and name == "get" and isinstance(a0, Adt) and a0.adt == "nonzero":
             return a0.fields["0"]
         if name == "to_be_bytes" and isinstance(a0, Sym):
@@ -1089,6 +1168,28 @@ class PE:
             return some(items[args[1]]) if 0 <= args[1] < len(items) else NONE
         if name in ("first", "last") and len(args) == 1 and not is_iter:
             return (some(items[0 if name == "first" else -1]) if items else NONE)
+        if name in ("try_for_each", "for_each") and len(args) == 2:
+            for x in items:
+                r = self.apply(args[1], [x])
+                if name == "try_for_each":
+                    if isinstance(r, Adt) and r.variant in ("Err", "None", "Break"):
+                        return r
+                    if not (isinstance(r, Adt) and r.variant in ("Ok", "Some", "Continue")):
+                        if not self.decide(("try-ok", r), e):
+                            return r
+            return ok(UNIT) if name == "try_for_each" else UNIT
+        if name == "enumerate" and len(args) == 1:
+            return Adt("seq-iter", "It", {"0": Tup([Tup([i, x]) for i, x in enumerate(items)])})
+        if name == "rev" and len(args) == 1:
+            return Adt("seq-iter", "It", {"0": Tup(list(reversed(items)))})
+        if name in ("skip", "take") and len(args) == 2 and isinstance(args[1], int):
+            return Adt("seq-iter", "It", {"0": Tup(items[args[1]:] if name == "skip" else items[:args[1]])})
+        if name == "zip" and len(args) == 2:
+            o = args[1]
+            if isinstance(o, Adt) and o.adt == "seq-iter":
+                o = o.fields["0"]
+            if isinstance(o, Tup):
+                return Adt("seq-iter", "It", {"0": Tup([Tup([x, y]) for x, y in zip(items, o.items)])})
         if name == "is_empty" and len(args) == 1:
             return not items
         if name in ("len", "count") and len(args) == 1:
@@ -1178,6 +1279,10 @@ class PE:
                     if r is not NotImplemented:
                         return r
                 return args[0]
+            if rec.get("def"):
+                # a foreign function used as a value (`.map(Arc::new)`): the same model as a direct call
+                fake = {"k": "Call", "fn": rec, "ty": rec.get("sig_out"), "args": [{"k": "__val", "v": a} for a in args]}
+                return self.ev(fake, {})
         raise Undecided("apply %r" % (f,))
 
 
